@@ -56,6 +56,7 @@ type GenSpec struct {
 	SpecCmd  []string       `json:"spec_cmd"`
 	Features []string       `json:"features"`
 	HubEntry map[string]int `json:"hub_entry"` // exported harness entry -> number of int args after the package index
+	MustAccept []string     `json:"must_accept"` // compile-only units: packages the generator must accept (reachability witness of a fault matrix)
 }
 
 type UnitSpec struct {
@@ -726,6 +727,17 @@ func compileOnlyUnit(id, scratch string, u *UnitSpec, res *unitResult, listed ma
 		os.WriteFile(filepath.Join(dir, "replay.sh"), []byte("#!/bin/sh\ncat "+dir+"/README.txt\n"), 0o755)
 		v.PathDesc = dir
 		res.confirmed = append(res.confirmed, v)
+	}
+	for _, must := range u.Gen.MustAccept {
+		found := false
+		for _, a := range st.accepted {
+			if a == must {
+				found = true
+			}
+		}
+		if !found {
+			res.nativeBad = append(res.nativeBad, "vacuous: the undamaged document "+must+" is refused by the generator, so the fault matrix exercises nothing")
+		}
 	}
 	// a generator that panics instead of returning a diagnostic breaks the property as well
 	for _, rj := range st.rejected {
